@@ -18,7 +18,7 @@ type c15 struct{ base }
 func init() {
 	runner.Register(&c15{base{
 		id: "C15", level: "fault_enumeration",
-		rule: "seeded search over written files (none/zstd/lz4/unchunked) x reader modes (lexer with chunk CRC validation off/on, scan iterator on a non-seekable source, indexed iterator in 3 orders on a seekable source); per file and mode: (a) every benign delivery policy (one byte, halving, hash-sized, data-with-EOF, hash-sized+EOF) must give exactly the full-delivery result including the terminal condition; (b) the read fault is enumerated exhaustively: an unreadable byte at EVERY position p (error delivered together with the preceding bytes, or alone on the next call; sticky or one-shot) and, on seekable sources, an error on EVERY k-th Seek call. oracle: records are a prefix of the fault-free result, no panic, and if p is needed by that reader the read ends with a non-EOF error. distinct by (config class, op-shape class, reader mode, fault kind/mode, FileMap region of p)",
+		rule: "seeded search over written files (none/zstd/lz4/unchunked) x reader modes (lexer with chunk CRC validation off/on, scan iterator on a non-seekable source, indexed iterator in 3 orders, Info, and random access to every indexed attachment / metadata record on a seekable source); per file and mode: (a) every benign delivery policy (one byte, halving, hash-sized, data-with-EOF, hash-sized+EOF) must give exactly the full-delivery result including the terminal condition; (b) the read fault is enumerated exhaustively: an unreadable byte at EVERY position p (error delivered together with the preceding bytes, or alone on the next call; sticky or one-shot) and, on seekable sources, an error on EVERY k-th Seek call. oracle: records are a prefix of the fault-free result, no panic, and if p is needed by that reader the read ends with a non-EOF error. distinct by (config class, op-shape class, reader mode, fault kind/mode, FileMap region of p)",
 		assumptions: []string{
 			"needed-byte sets: sequential readers need every byte; indexed readers need the header, the footer and trailing magic, the summary section and the chunk records selected; a fault outside the needed set is counted as not_fired when the source never returned it",
 			"an error is delivered as (n>0, err) sticky, (0, err) on the next call sticky, or (0, err) one-shot; a one-shot (n>0, err) is not injected because io.ReadFull itself discards it; the quick tier picks one of the three per position by a hash of p, the thorough tier runs all three",
@@ -32,8 +32,8 @@ func (p *c15) Draw(t *rapid.T, tier string) *runner.Scenario {
 	lim := smallLimits(tier)
 	lim.NoCustom = true
 	wl := gen.Workload(t, lim)
-	mode := pick(t, "mode", "lexer", "lexer_crc", "scan", "indexed0", "indexed1", "indexed2")
-	if mode[0] == 'i' {
+	mode := pick(t, "mode", "lexer", "lexer_crc", "scan", "indexed0", "indexed1", "indexed2", "info", "random_access")
+	if mode[0] == 'i' && mode != "info" {
 		lim.ForceChunked = true
 		lim.ForceIndexed = true
 	}
@@ -41,7 +41,7 @@ func (p *c15) Draw(t *rapid.T, tier string) *runner.Scenario {
 	if mode != "lexer" && mode != "lexer_crc" {
 		cfg.SkipMagic = false
 	}
-	if mode[0] == 'i' && cfg.ChunkSize == 0 {
+	if mode[0] == 'i' && mode != "info" && cfg.ChunkSize == 0 {
 		cfg.ChunkSize = 80
 	}
 	return &runner.Scenario{Cfg: &cfg, WL: &wl, Mode: mode}
@@ -130,7 +130,7 @@ func (p *c15) Check(sc *runner.Scenario, st *runner.Stats, pin string) *runner.V
 		return viol(sc, "panic", "fault-free read, reader %s: %s", mode, full.panic)
 	}
 	if full.terminal != "eof" {
-		if mode[0] == 'i' && len(w.content.Channels) == 0 {
+		if mode[0] == 'i' && mode != "info" && len(w.content.Channels) == 0 {
 			return nil // no channel ever written: time-ordered read may report 'no index'
 		}
 		return viol(sc, "unexpected_error", "fault-free read, reader %s ended with %s: %v", mode, full.terminal, full.err)
@@ -175,7 +175,7 @@ func (p *c15) Check(sc *runner.Scenario, st *runner.Stats, pin string) *runner.V
 		}
 	}
 	// (c) every seek call
-	if mode[0] == 'i' {
+	if mode[0] == 'i' || mode == "random_access" {
 		for k := 0; k < full.srcStats.Seeks; k++ {
 			for _, sticky := range []bool{true, false} {
 				f := scen.Fault{Kind: "seek_err", Call: k, Sticky: sticky}
